@@ -5,6 +5,7 @@ import ZstdVerif.Model.Stream
 import ZstdVerif.Model.SeqApi
 import ZstdVerif.Model.Seekable
 import ZstdVerif.Model.Window
+import ZstdVerif.Model.Dict
 import Driver.Util
 namespace Driver.Dec
 open ZstdVerif
@@ -27,6 +28,19 @@ def step (_ : Unit) (ws : List String) : Unit × String :=
   | ["dec", cap, hx, dh] =>
       let d := if dh == "-" then ByteArray.empty else ByteArray.ofHex dh
       ((), resultLine (Frame.decompressAll (if hx == "-" then ByteArray.empty else ByteArray.ofHex hx) { content := d } cap.toNat!))
+  | ["dictload", dh] =>
+      -- both loaders' verdicts and the dictionary ID (Model/Dict.lean)
+      let d := if dh == "-" then ByteArray.empty else ByteArray.ofHex dh
+      let dv := match Dict.loadD d with | .ok D => s!"ok:{D.id}" | .error e => s!"err:{e.cls}"
+      let cv := match Dict.acceptC d with | some i => s!"ok:{i}" | none => "err:dictionary_corrupted"
+      ((), s!"C={cv} D={dv} idDict={Dict.dictIDFromDict d}")
+  | ["decd", cap, hx, dh, asPrefix] =>
+      -- decode with a dictionary loaded by the decoder-side loader model (asPrefix = 1: raw content, as ZSTD_DCtx_refPrefix)
+      let d := if dh == "-" then ByteArray.empty else ByteArray.ofHex dh
+      let f := if hx == "-" then ByteArray.empty else ByteArray.ofHex hx
+      match (if asPrefix == "1" then (.ok { content := d } : R Frame.Dict) else Dict.loadD d) with
+      | .error e => ((), s!"dict-err {e.cls}")
+      | .ok D => ((), resultLine (Frame.decompressAll f D cap.toNat!))
   | ["fsize", hx] =>
       let b := if hx == "-" then ByteArray.empty else ByteArray.ofHex hx
       ((), match Frame.findFrameCompressedSize b 0 b.size with | .ok n => s!"ok {n}" | .error e => s!"err {e.cls}")
